@@ -1,3 +1,127 @@
 package main
 
-func runThorough(def PropertyDef, rep *Report, repo string, extra map[string]any) {}
+import (
+	"fmt"
+	"os"
+	"path/filepath"
+	"sort"
+	"strings"
+)
+
+// Seed is a small source edit used to test the checker both ways in the thorough
+// tier: applied in memory (packages.Config.Overlay), the tree is re-loaded and the
+// named rule must report. Seeds are scaffolding for the checker; they never decide
+// a property. A seed whose old fragment no longer occurs exactly once in the
+// current /repo (because /repo was edited) is skipped and listed.
+type Seed struct {
+	ID       string
+	Property string
+	Rule     string // rule that must report (violated or undecided)
+	File     string // path relative to the repository root
+	Old, New string
+	Note     string
+}
+
+type seedResult struct {
+	ID     string `json:"seed"`
+	Rule   string `json:"rule"`
+	Status string `json:"status"` // fired, MISSED, skipped:<why>
+	By     string `json:"reported_as,omitempty"`
+}
+
+func runThorough(def PropertyDef, rep *Report, repo string, extra map[string]any) {
+	// (a) second configuration: GOARCH=386 (catches width-dependent build constraints)
+	if c386, err := Load(LoadOpts{Repo: repo, GOARCH: "386"}); err != nil {
+		rep.Infra = append(rep.Infra, "GOARCH=386 load failed: "+err.Error())
+	} else {
+		r2 := runRules(def, c386)
+		a, b := verdictMultiset(rep), verdictMultiset(r2)
+		extra["goarch_386_obligations"] = len(r2.Obs)
+		if a != b {
+			rep.Infra = append(rep.Infra, "verdicts under GOARCH=386 differ from the default configuration:\n  default: "+a+"\n  386:     "+b)
+		}
+	}
+	// (b) seeded variants
+	var results []seedResult
+	fired, missed, skipped := 0, 0, 0
+	for _, s := range seeds {
+		if s.Property != def.ID {
+			continue
+		}
+		res := seedResult{ID: s.ID, Rule: s.Rule}
+		path := filepath.Join(repo, s.File)
+		src, err := os.ReadFile(path)
+		if err != nil {
+			res.Status = "skipped: " + err.Error()
+			skipped++
+			results = append(results, res)
+			continue
+		}
+		if n := strings.Count(string(src), s.Old); n != 1 {
+			res.Status = fmt.Sprintf("skipped: old fragment occurs %d times in the current tree", n)
+			skipped++
+			results = append(results, res)
+			continue
+		}
+		mutated := strings.Replace(string(src), s.Old, s.New, 1)
+		c2, err := Load(LoadOpts{Repo: repo, Overlay: map[string][]byte{path: []byte(mutated)}})
+		if err != nil {
+			res.Status = "skipped: variant does not load: " + firstLine(err.Error())
+			skipped++
+			results = append(results, res)
+			continue
+		}
+		lockCache.la, lockCache.c = nil, nil
+		r2 := runRules(def, c2)
+		hit, other := "", ""
+		for _, o := range r2.Obs {
+			if o.Verdict != Violated && o.Verdict != Undecided {
+				continue
+			}
+			if o.Rule == s.Rule && hit == "" {
+				hit = o.Rule + "@" + o.Key
+			} else if other == "" {
+				other = o.Rule + "@" + o.Key
+			}
+		}
+		switch {
+		case hit != "":
+			res.Status, res.By = "fired", hit
+			fired++
+		case other != "":
+			res.Status, res.By = "fired (by another rule of the property)", other
+			fired++
+		default:
+			res.Status = "MISSED"
+			missed++
+			rep.Infra = append(rep.Infra, fmt.Sprintf("seeded variant %s (%s) was not reported by rule %s: the checker lost its ability to see this violation", s.ID, s.Note, s.Rule))
+		}
+		results = append(results, res)
+	}
+	lockCache.la, lockCache.c = nil, nil
+	sort.Slice(results, func(i, j int) bool { return results[i].ID < results[j].ID })
+	extra["seeded_variants"] = results
+	extra["seeds_fired"] = fired
+	extra["seeds_missed"] = missed
+	extra["seeds_skipped"] = skipped
+}
+
+func firstLine(s string) string {
+	if i := strings.IndexByte(s, '\n'); i >= 0 {
+		return s[:i]
+	}
+	return s
+}
+
+func verdictMultiset(r *Report) string {
+	m := map[string]int{}
+	for _, o := range r.Obs {
+		m[o.Rule+":"+o.Verdict]++
+	}
+	var ks []string
+	for k, v := range m {
+		ks = append(ks, fmt.Sprintf("%s=%d", k, v))
+	}
+	sort.Strings(ks)
+	return strings.Join(ks, " ")
+}
